@@ -57,9 +57,10 @@ PROFILE = gf.make_profile(
            "if1": 3, "where": 0, "select": 0, "call": 0, "dowhile": 0,
            "exitcycle": 0, "assign_section": 1},
     dep_index=50, perfect_nest=20, helpers=(0, 0), nstmts=(2, 5),
-    array_intrinsics=False, functions=False)
+    array_intrinsics=False, functions=False, twin_loops=30,
+    scalar_loopvar=12)
 
-VARIANTS = ["pardo", "do+parallel"]
+VARIANTS = ["pardo", "do+parallel", "region2"]
 SCHEDULES = ["static", "dynamic", "guided", "auto"]
 
 
@@ -70,6 +71,14 @@ def apply_variant(loop, variant, schedule):
     if variant == "pardo":
         OMPParallelLoopTrans(omp_schedule=schedule).apply(loop)
         return loop.parent.parent
+    if variant == "region2":
+        # two adjacent loops, each with its own '!$omp do', in ONE region
+        loop2 = loop.parent.children[loop.position + 1]
+        OMPLoopTrans(omp_schedule=schedule).apply(loop)
+        OMPLoopTrans(omp_schedule=schedule).apply(loop2)
+        dir1, dir2 = loop.parent.parent, loop2.parent.parent
+        OMPParallelTrans().apply([dir1, dir2])
+        return dir1.parent.parent
     OMPLoopTrans(omp_schedule=schedule).apply(loop)
     ompdo = loop.parent.parent
     OMPParallelTrans().apply(ompdo)
@@ -124,9 +133,10 @@ def plans(ntrip):
 class Sim:
     """Interpreter hook simulating one parallel loop directive."""
 
-    def __init__(self, clauses, loop, prog_names):
+    def __init__(self, clauses, loop, prog_names, loop2=None):
         self.clauses = clauses
         self.loop = loop
+        self.loops = [loop] + ([loop2] if loop2 is not None else [])
         self.mismatch = None
         self.mismatch_var = None
         self.max_trips = 0
@@ -139,30 +149,38 @@ class Sim:
         return list(seen.values())
 
     def __call__(self, itp, node, frame):
-        loop = self.loop
         # make sure every variable named in a clause is allocated
         names = self.clauses["private"] + self.clauses["firstprivate"]
         table = frame.routine.symbol_table
         for name in names:
             itp.lookup(table.lookup(name), frame)
-        lvar = loop.variable.name.lower()
-        itp.lookup(loop.variable, frame)
+        lvars = set()
+        for loop in self.loops:
+            lvars.add(loop.variable.name.lower())
+            itp.lookup(loop.variable, frame)
         roots = self.roots(itp, frame)
         entry = {id(r): list(r.data) for r in roots}
-        start, step, trips = itp.loop_values(loop, frame)
-        self.max_trips = max(self.max_trips, trips)
         self.executions += 1
-        # ---- serial reference ------------------------------------------
-        itp.exec_nohook(loop, frame)
+        # ---- serial reference (also yields each loop's bounds as seen
+        # when that loop starts in the serial execution) -------------------
+        for loop in self.loops:
+            itp.exec_nohook(loop, frame)
         serial = {id(r): list(r.data) for r in roots}
-        private = set(names) | {lvar}
+        private = set(names) | lvars
         priv_roots = {id(frame.vars[n].root) for n in private
                       if n in frame.vars}
+        ntrips = []
+        for root in roots:
+            root.data[:] = entry[id(root)]
         if self.mismatch is None:
-            for pname, plan in plans(trips):
+            # bounds of the first loop decide the plan shapes; the second
+            # loop's bounds are evaluated when it is reached in each plan
+            _, _, trips0 = itp.loop_values(self.loops[0], frame)
+            self.max_trips = max(self.max_trips, trips0)
+            for pname, _ in plans(max(trips0, 2)):
                 for root in roots:
                     root.data[:] = entry[id(root)]
-                msg = self.run_plan(itp, frame, plan, start, step, private)
+                msg = self.run_region(itp, frame, pname, private)
                 if msg is None:
                     for root in roots:
                         if id(root) in priv_roots:
@@ -178,40 +196,50 @@ class Sim:
                                    f"{serial[id(root)][pos]}")
                             break
                 if msg:
-                    self.mismatch = f"plan {pname} ({trips} iterations): " \
-                                    f"{msg}"
+                    self.mismatch = f"plan {pname}: {msg}"
                     break
         for root in roots:
             root.data[:] = serial[id(root)]
 
-    def run_plan(self, itp, frame, plan, start, step, private):
-        loop = self.loop
-        lvar = loop.variable.name.lower()
+    def run_region(self, itp, frame, pname, private):
+        """Execute all worksharing loops of the region under plan `pname`;
+        simulated threads keep their private copies across the loops."""
         shared_bind = {n: frame.vars[n] for n in private if n in frame.vars}
         threads = {}
         saved_prop = itp.propagate_poison
         itp.propagate_poison = True
         try:
-            for tid, itn in plan:
-                if tid not in threads:
-                    copies = {}
-                    for name, arr in shared_bind.items():
-                        if name in self.clauses["firstprivate"]:
-                            data = list(arr.root.data) if arr.fmap is None \
-                                else arr.values()
-                        else:
-                            data = [I.POISON] * arr.size
-                        copies[name] = I.Arr(arr.typ, arr.bounds, data=data,
-                                             name=name + "@t", bits=arr.bits)
-                    threads[tid] = copies
-                frame.vars.update(threads[tid])
-                itp.store(frame.vars[lvar], 0, start + itn * step)
+            for loop in self.loops:
+                lvar = loop.variable.name.lower()
                 try:
-                    itp.exec_body(loop.loop_body.children, frame)
+                    start, step, trips = itp.loop_values(loop, frame)
                 except I.PoisonRead as err:
-                    return f"iteration {itn} on thread {tid}: {err}"
-                finally:
-                    frame.vars.update(shared_bind)
+                    return f"loop bounds: {err}"
+                self.max_trips = max(self.max_trips, trips)
+                plan = dict(plans(trips)).get(pname)
+                if plan is None:
+                    plan = [(0, i) for i in range(trips)]
+                for tid, itn in plan:
+                    if tid not in threads:
+                        copies = {}
+                        for name, arr in shared_bind.items():
+                            if name in self.clauses["firstprivate"]:
+                                data = list(arr.root.data) \
+                                    if arr.fmap is None else arr.values()
+                            else:
+                                data = [I.POISON] * arr.size
+                            copies[name] = I.Arr(arr.typ, arr.bounds,
+                                                 data=data, name=name + "@t",
+                                                 bits=arr.bits)
+                        threads[tid] = copies
+                    frame.vars.update(threads[tid])
+                    itp.store(frame.vars[lvar], 0, start + itn * step)
+                    try:
+                        itp.exec_body(loop.loop_body.children, frame)
+                    except I.PoisonRead as err:
+                        return f"iteration {itn} on thread {tid}: {err}"
+                    finally:
+                        frame.vars.update(shared_bind)
         finally:
             itp.propagate_poison = saved_prop
             frame.vars.update(shared_bind)
@@ -260,6 +288,17 @@ def check(prog, src, lidx, variant, schedule):
     if not loops:
         return "no_target", None, {}
     loop = loops[lidx % len(loops)]
+    loop2 = None
+    if variant == "region2":
+        pairs = [lp for lp in loops
+                 if lp.position + 1 < len(lp.parent.children) and
+                 isinstance(lp.parent.children[lp.position + 1], Loop)]
+        if not pairs:
+            return "no_target", None, {}
+        loop = pairs[lidx % len(pairs)]
+        loop2 = loop.parent.children[loop.position + 1]
+        if loop2.walk(CodeBlock):
+            return "no_target", None, {}
     if loop.walk(CodeBlock):
         return "no_target", None, {}
     try:
@@ -281,6 +320,8 @@ def check(prog, src, lidx, variant, schedule):
     # whole-program real runs are not comparable for such cases.
     from psyclone.psyir.nodes import Reference
     lvars = {lp.variable.name.lower() for lp in loop.walk(Loop)}
+    if loop2 is not None:
+        lvars |= {lp.variable.name.lower() for lp in loop2.walk(Loop)}
     priv = (set(clauses["private"]) | set(clauses["firstprivate"])) - lvars
     after = set()
     node = directive
@@ -295,7 +336,7 @@ def check(prog, src, lidx, variant, schedule):
         node = node.parent
     argnames = {v.name.lower() for v in prog.args}
     info["private_observable"] = sorted(priv & (after | argnames))
-    sim = Sim(clauses, loop, None)
+    sim = Sim(clauses, loop, None, loop2)
     max_trips = 0
     for num, inp in enumerate(prog.inputs):
         try:
